@@ -1,6 +1,8 @@
 #!/bin/sh
 # usage: mut.sh <prop> <file relative to repo> <sed expr>   : applies a mutation in the scratch copy, runs the check, restores
 M=/var/tmp/mrepo
+# scratch copy of /repo (outside /repo and /verif), refreshed on every call; remove it when done: rm -rf /var/tmp/mrepo
+rsync -a --delete --exclude .git /repo/ $M/
 cp $M/$2 $M/$2.orig
 sed -i "$3" $M/$2
 if cmp -s $M/$2 $M/$2.orig; then echo "MUTATION DID NOT APPLY"; fi
